@@ -8,6 +8,8 @@ The REAL xeofs model is fitted on the same labelled inputs and every public resu
 names is compared with the oracle:
   * data['singular_values'] >= 0, descending, == (N/(N-1))^((2-ax-ay)/2) * sigma(K)  (factor 1 for MCA),
   * scores1^H scores2 / (N-1) == diag(singular values),
+  * stored state: data['total_squared_covariance'] == ||Cxy||_F^2 of the un-whitened (reduced) fields,
+    data['idx_modes_sorted'] orders the singular values descending, PCA keeps the documented mode count,
   * MCA (alpha = 1,1): components orthonormal, SCF_i = sigma_i^2/||Cxy||_F^2, sum 1 at full rank,
   * CCA (alpha = 0,0): Pearson correlation of paired scores == canonical correlations (QR + SVD),
   * cross_correlation_coefficients / correlation_coefficients_X/Y: |.| <= 1, unit self-correlation,
@@ -42,7 +44,11 @@ ASSUMPTIONS = [
     "homogeneous/heterogeneous patterns are compared with the correlation of the PCA-filtered (and, for "
     "Hilbert variants, analytic) feature series; without PCA truncation this is np.corrcoef(raw feature, score)",
     "complex correlations use the X^H Y orientation (conjugate of numpy.corrcoef(a,b)[0,1]); moduli are orientation free",
-    "data scale 1e-2..1e2 (the whitener's absolute eps cut-off of covariance eigenvalues is not exercised)",
+    "data scale 1e-3..1e6 plus a 4 % slice at 1e-10..1e-7 (physical units such as m/s rain rates); standardize is "
+    "switched off in that slice (the documented float32-eps clip of the standard deviation is not the subject)",
+    "correlations and patterns are only compared for modes whose two score series do not vanish numerically "
+    "(a mode beyond the rank of the cross matrix has 0/0 correlations)",
+    "a field whose (reduced) covariance has condition > 1e10 and alpha < 1 is skipped as ambiguous",
 ]
 TOL = 1e-9
 TOL_W = 1e-8  # quantities that pass through a fractional inverse power of a covariance
@@ -227,7 +233,7 @@ def cases(tier, seed):
         for pk in ("none", "int"):
             out.append(_draw(gen.rng_for(909, i), cls=cls, pca_kind=pk, data="generic", wide=[False, False], tiny=True))
             i += 1
-    nrand = 450 if tier == "quick" else 14000
+    nrand = 450 if tier == "quick" else 12000
     for j in range(nrand):
         out.append(_draw(gen.rng_for(seed, 9, j)))
     return out
